@@ -382,12 +382,14 @@ func MetaDataKVHandler(resHolder *SearchResult, attrGetter AttributeGetter, addi
 			}
 			for i := range fs {
 				// there may be several filters by primary key, e.g. N >= 10 && N <= 20. We
-				// check them immediately before moving through the DB.
+				// check them immediately before moving through the DB. Filters of the other
+				// kind (numeric vs. string) cannot be applied to the primary index value, they
+				// are checked below like any other attribute.
 				attr := fs[i].Header()
-				if i > 0 && attr != fs[0].Header() {
+				mch, val := convertFilterValue(fs[i].SearchFilter)
+				if i > 0 && (attr != fs[0].Header() || IsIntegerSearchOp(mch) != intPrimMatcher) {
 					continue
 				}
-				mch, val := convertFilterValue(fs[i].SearchFilter)
 				var matches bool
 				if IsIntegerSearchOp(mch) {
 					matches = fs[i].AutoMatch || intBytesMatch(primDBVal, mch, fs[i].Raw)
@@ -400,12 +402,21 @@ func MetaDataKVHandler(resHolder *SearchResult, attrGetter AttributeGetter, addi
 					matches = matchValues(checkedDBVal, mch, fltVal)
 				}
 				if !matches {
-					if mch != object.MatchStringNotEqual && (wasPrimMatch || mch != object.MatchNumGT) {
+					if i == 0 {
+						// iteration starts from the 1st filter's value, so there is nothing further
+						if mch != object.MatchStringNotEqual && (wasPrimMatch || mch != object.MatchNumGT) {
+							return false
+						}
+					} else if mch == object.MatchNumLT || mch == object.MatchNumLE {
+						// keys are ascending, so there is nothing further
 						return false
 					}
+					// current value may just not reach the filter's one yet
 					return true
 				}
-				wasPrimMatch = true
+				if i == 0 {
+					wasPrimMatch = true
+				}
 				// TODO: attribute value can be requested, it can be collected here, or we can
 				//  detect earlier when an object goes beyond the already collected result. The
 				//  code can become even more complex. Same below
@@ -413,8 +424,13 @@ func MetaDataKVHandler(resHolder *SearchResult, attrGetter AttributeGetter, addi
 		}
 		// apply other filters
 		for i := range fs {
-			if !idIter && (i == 0 || fs[i].Header() == fs[0].Header()) { // 1st already checked
-				continue
+			if !idIter {
+				if i == 0 { // 1st already checked
+					continue
+				}
+				if m, _ := convertFilterValue(fs[i].SearchFilter); fs[i].Header() == fs[0].Header() && IsIntegerSearchOp(m) == intPrimMatcher {
+					continue // also checked above
+				}
 			}
 			attr := fs[i].Header() // emptiness already prevented
 			for j := 1; j < i; j++ {
